@@ -31,21 +31,21 @@ func (w *verifWriterAt) WriteAt(p []byte, off int64) (int, error) {
 }
 
 // VerifS3BlobHistory: a symbolic sequence of uploads, downloads and stats over
-// three names with symbolic contents against the remembering S3; every
+// two names with symbolic contents against the remembering S3; every
 // download returns the bytes last uploaded, Stat their length, names never
 // uploaded give ErrBlobNotFound.
 func VerifS3BlobHistory() {
 	m := verifNewS3("bkt")
 	pather := []string{namepath.Identity, namepath.ShardedDockerBlob}[verif.Choice("pather", 2)]
 	c := verifClient(m, "/root", pather, 0)
-	names := []string{"aa11", "aa22", "bb11"}
+	names := []string{"aa11", "bb22"}
 	last := make([][]byte, len(names))
-	steps := verif.Bound("steps", 3, 5)
+	steps := verif.Bound("steps", 3, 4)
 	for s := 0; s < steps; s++ {
 		i := verif.Choice("name", len(names))
 		switch verif.Choice("op", 3) {
 		case 0: // upload
-			n := verif.Len("size", 0, verif.Bound("max_size", 2, 3))
+			n := verif.Len("size", 0, verif.Bound("max_size", 1, 2))
 			data := verif.Bytes("data", n)
 			err := c.Upload("ns", names[i], bytes.NewReader(data))
 			verif.Assert("upload-ok", err == nil)
